@@ -834,6 +834,12 @@ func (r *Reader) Markdown() (string, error) {
 
 // MarkdownWithOptions returns HTML content as Markdown with options.
 func (r *Reader) MarkdownWithOptions(opts ExtractOptions) (string, error) {
+	return r.markdown(opts, func(level int) int { return level })
+}
+
+// markdown renders the content; headingLevel maps a source heading level to
+// the level that is written.
+func (r *Reader) markdown(opts ExtractOptions, headingLevel func(int) int) (string, error) {
 	var result strings.Builder
 
 	elements := r.getElements(opts.NavigationExclusion)
@@ -843,7 +849,7 @@ func (r *Reader) MarkdownWithOptions(opts ExtractOptions) (string, error) {
 			if result.Len() > 0 {
 				result.WriteString("\n\n")
 			}
-			for i := 0; i < elem.Level; i++ {
+			for i := 0; i < headingLevel(elem.Level); i++ {
 				result.WriteString("#")
 			}
 			result.WriteString(" ")
@@ -950,7 +956,7 @@ func (r *Reader) MarkdownWithRAGOptions(extractOpts ExtractOptions, mdOpts rag.M
 	}
 
 	// Generate main content
-	md, err := r.MarkdownWithOptions(extractOpts)
+	md, err := r.markdown(extractOpts, mdOpts.AdjustHeadingLevel)
 	if err != nil {
 		return "", err
 	}
